@@ -931,6 +931,8 @@ func main() {
 		{"skel_handleCtxAsync", "wsConn", "handleCtxAsync"},
 		{"skel_setupPings", "wsConn", "setupPings"},
 		{"skel_resetReadDeadline", "wsConn", "resetReadDeadline"},
+		{"skel_autoResetReader", "wsConn", "autoResetReader"},
+		{"skel_deadlineResetReader_Read", "deadlineResetReader", "Read"},
 		{"skel_setupRequestChan", "client", "setupRequestChan"},
 		{"skel_makeOutChan", "client", "makeOutChan"},
 		{"skel_handleRpcCall", "rpcFunc", "handleRpcCall"},
@@ -957,6 +959,7 @@ func main() {
 	f.comment("uses of c.conn in package jsonrpc: \"<function>: <method or assign> locked=<bool>\" (function literals start unlocked)")
 	{
 		var uses []string
+		aliases := map[string]bool{} // local variables holding c.conn (reset per top-level function)
 		var scan func(fname string, body *ast.BlockStmt)
 		scan = func(fname string, body *ast.BlockStmt) {
 			locked := false
@@ -984,10 +987,21 @@ func main() {
 					if strings.HasPrefix(name, "c.conn.") {
 						uses = append(uses, fmt.Sprintf("%s: %s locked=%v", fname, strings.TrimPrefix(name, "c.conn."), locked))
 					}
+					if i := strings.Index(name, "."); i > 0 && aliases[name[:i]] {
+						uses = append(uses, fmt.Sprintf("%s: alias.%s locked=%v", fname, name[i+1:], locked))
+					}
 				case *ast.AssignStmt:
 					for _, l := range x.Lhs {
 						if selString(l) == "c.conn" {
 							uses = append(uses, fmt.Sprintf("%s: assign locked=%v", fname, locked))
+						}
+					}
+					for i, r := range x.Rhs {
+						if selString(r) == "c.conn" && i < len(x.Lhs) {
+							if id, ok := x.Lhs[i].(*ast.Ident); ok {
+								aliases[id.Name] = true
+								uses = append(uses, fmt.Sprintf("%s: alias locked=%v", fname, locked))
+							}
 						}
 					}
 				}
@@ -997,6 +1011,9 @@ func main() {
 		}
 		for _, fd := range p.allFuncs() {
 			if fd.Body != nil && fd.Recv != nil && funcKey(fd)[:len("wsConn")] == "wsConn" {
+				for k := range aliases {
+					delete(aliases, k)
+				}
 				scan(funcKey(fd), fd.Body)
 			}
 		}
